@@ -205,3 +205,76 @@ func Harness_C15_fallback_race() {
 	verif_Assert("C15.fbrace.one_wins", ok1 || ok2)
 	verif_Cover("C15.fbrace.done")
 }
+
+// ---- the string instantiation, through the IDManager -----------------------------------------
+
+// Mapping, user and node ids come from StorageIDGenerator[string] behind IDManager: two managers
+// (two nodes) on one store, candidates from a set of two. A taken id is never handed out again
+// while its holder has not released it - sequentially and when both nodes generate at once - and
+// the kinds do not disturb each other (a user id's marker does not block the same random part as a
+// mapping id).
+func Harness_C15_manager_strings() {
+	verif_UseTapeRandom()
+	verif_ClockSet(int64(1) << 60)
+	ctx := context.Background()
+	sts := c15Stores(ctx)
+	m1, m2 := NewIDManager(sts[0], ctx), NewIDManager(sts[1], ctx)
+	kind := verif_Choose(3)
+	gen := func(m *IDManager, k int) (string, error) {
+		switch k {
+		case 0:
+			return m.GeneratePortMappingID()
+		case 1:
+			return m.GenerateUserID()
+		}
+		return m.GenerateNodeID()
+	}
+	used := func(m *IDManager, k int, id string) bool {
+		var u bool
+		switch k {
+		case 0:
+			u, _ = m.IsPortMappingIDUsed(id)
+		case 1:
+			u, _ = m.IsUserIDUsed(id)
+		default:
+			u, _ = m.IsNodeIDUsed(id)
+		}
+		return u
+	}
+	first, err := gen(m1, kind)
+	verif_Assert("C15.str.first", err == nil && first != "")
+	verif_Assert("C15.str.marked_everywhere", used(m2, kind, first))
+	if verif_Bool() {
+		// sequential: the other node generates the same kind, then another kind
+		second, err2 := gen(m2, kind)
+		if err2 == nil {
+			verif_Assert("C15.str.not_taken", second != first)
+			verif_Cover("C15.str.collision_avoided")
+		} else {
+			verif_Assert("C15.str.clean_failure", err2 == ErrIDExhausted)
+		}
+		other, err3 := gen(m2, (kind+1)%3)
+		verif_Assert("C15.str.other_kind_independent", err3 == nil && other != "")
+		verif_Assert("C15.str.holder_keeps_marker", used(m1, kind, first))
+	} else {
+		// both nodes claim solver-chosen candidates of that kind at the same time (the claim step
+		// of the string instantiation; Generate's retry loop around it is the sequential part)
+		g1 := []IDGenerator[string]{m1.portMappingIDGen, m1.userIDGen, m1.nodeIDGen}[kind].(*StorageIDGenerator[string])
+		g2 := []IDGenerator[string]{m2.portMappingIDGen, m2.userIDGen, m2.nodeIDGen}[kind].(*StorageIDGenerator[string])
+		cands := []string{first, first + "x"}
+		c1, c2 := cands[verif_Choose(2)], cands[verif_Choose(2)]
+		var ok1, ok2 bool
+		verif_Spawn(func() { ok1, _ = g1.tryMarkAsUsed(c1) })
+		verif_Spawn(func() { ok2, _ = g2.tryMarkAsUsed(c2) })
+		verif_Quiesce()
+		verif_Assert("C15.str.race.taken_refused", !(ok1 && c1 == first) && !(ok2 && c2 == first))
+		if c1 == c2 {
+			verif_Assert("C15.str.race.exclusive", !(ok1 && ok2))
+			if c1 != first {
+				verif_Assert("C15.str.race.one_wins", ok1 || ok2)
+			}
+		}
+		verif_Cover("C15.str.race")
+	}
+	verif_Cover("C15.str.done")
+}
